@@ -1,14 +1,16 @@
 #!/bin/bash
-# usage: tools/seedingest.sh <seed-id> <source-dir-with-patch.diff,demo.py,meta.json> [props]
+# usage: tools/seedingest.sh <seed-id> <source-dir-with-patch.diff,demo.py,meta.json | - (already stored)> [props]
 # stores the change as /verif/seeded/<id>/, confirms it independently (tools/seedconfirm.py) and runs the checks against it from
 # a scratch copy of /verif (so that checks of the own tree are not disturbed); the scratch copy is refreshed first.
 set -u
 ID=$1; SRC=$2; PROPS=${3:-}
 SLOT=${SLOT:-0}
 V=/verif; S=/tmp/lw/S$SLOT; export SEED_WT=/tmp/scratch/wtc$SLOT
-mkdir -p $V/seeded/$ID
-cp $SRC/patch.diff $SRC/demo.py $SRC/meta.json $V/seeded/$ID/ || exit 2
-python3 $V/tools/seedconfirm.py $ID
+if [ "$SRC" != "-" ]; then
+  mkdir -p $V/seeded/$ID
+  cp $SRC/patch.diff $SRC/demo.py $SRC/meta.json $V/seeded/$ID/ || exit 2
+  python3 $V/tools/seedconfirm.py $ID
+fi
 mkdir -p $S && rsync -a --delete --exclude .git $V/ $S/
 cd $S && python3 tools/seedtest.py $S/seeded/$ID --seeds 0,1 --wt /tmp/scratch/wtS$SLOT ${PROPS:+--props $PROPS}
 cp $S/seeded/$ID/runs.json $V/seeded/$ID/runs.json
